@@ -168,7 +168,8 @@ pub const XR_REDUCE: [(&str, &str); 15] = [
     ("a\u{30a}", "aa"),
     ("A\u{30a}", "AA"),
     ("ß", "ss"),
-    ("ẞ", "SS"),
+    // a chain: the result of this entry is itself a key of the table (one pass applies one step)
+    ("ẞ", "ß"),
     ("é", "e"),
     ("É", "E"),
     ("ø", "oe"),
